@@ -131,6 +131,13 @@ class Arrays:
                 a = a.astype(np.int64)
         elif lay == 'readonly':
             a.flags.writeable = False
+        elif lay == 'float32':
+            a = a.astype(np.float32)
+        elif lay == 'int32':
+            if np.all(a == np.round(a)):
+                a = a.astype(np.int32)
+        elif lay == 'longdouble':
+            a = a.astype(np.longdouble)
         self.given.append((a, a.tobytes(), a.dtype.str, a.shape))
         return a
 
@@ -333,6 +340,9 @@ def gen_case(seed, cfg):
          'epoch': 2.2e9, 'gc': rng.choice(['off', 'collect'])},
         {'name': 'W4', 'where': 'here', 'layout': rng.choice(layouts), 'rng_seed': 3, 'epoch': 1.7e9, 'numeric': True},
         {'name': 'W5', 'where': 'here', 'layout': 'readonly', 'rng_seed': 3, 'epoch': 1.7e9, 'numeric': True},
+        # other numeric dtypes: only "no write into the user's arrays" and "global RNG untouched" are judged
+        {'name': 'W7', 'where': 'here', 'layout': rng.choice(['float32', 'int32', 'longdouble']), 'rng_seed': 5, 'epoch': 1.7e9,
+         'dtype_only': True},
         # same declaration, but the dual is formulated before the primal
         {'name': 'W6', 'where': 'here', 'layout': 'C', 'rng_seed': 0, 'epoch': 1.7e9, 'dual_first': True},
     ]
@@ -406,7 +416,7 @@ def check_case(case, props):
         if not r['arrays_ok']:
             viol('user-array-modified', 'a user-supplied array (layout %s) changed at op %s in world %s'
                  % (wc.get('layout'), r.get('first_bad'), nm), tag)
-        if nm == 'W0':
+        if nm == 'W0' or wc.get('dtype_only'):
             continue
         if r['log'] != base['log']:
             viol('outcome-differs', 'per-op outcomes differ between W0 and %s (layout %s, hashseed %s): first failures %s vs %s'
